@@ -23,6 +23,7 @@ func init() {
 			{ID: "C05-R7", Doc: "re-shuffles of a reused result with different custom partitioners never share memoised tasks (shared)", Run: c05r7},
 			{ID: "C02-R6", Doc: "reading a discarded input is not fatal: the input is recomputed (shared)", Run: c02r6},
 			{ID: "C12-R8", Doc: "the local executor stores a task's output before it marks the task OK, and records the cause of a failure", Run: c12r8},
+			{ID: "C12-R9", Doc: "a discarded task stays parked until the worker has let go of it (Worker.Discard before the task is set lost, and it is set lost afterwards on every path)", Run: c12r9},
 			{ID: "C08-R2", Doc: "re-shuffle tasks of a reused result get names minted by the namer, so two re-shuffles of one result never share a task name (shared)", Run: c08r2},
 			{ID: "C16-R5", Doc: "a worker receives the invocations behind Result arguments dependencies-first (shared)", Run: c16r5},
 			{ID: "C03-R4", Doc: "recomputation after discard/loss is not limited by earlier, recovered losses (shared)", Run: c03r4},
